@@ -350,6 +350,51 @@ func init() {
 		}})
 }
 
+func init() {
+	register(&Rule{ID: "C20.paginate", Props: []string{"C20"}, Floor: 6,
+		Doc: "paginated queries count every record under their scan prefix as a hit",
+		Run: func(e *Engine, r *RuleRun) {
+			for _, fn := range e.SMFuncs() {
+				if !strings.HasPrefix(FuncKey(topFunc(fn)), "keeper.QueryServer.") || fn.Parent() != nil {
+					continue
+				}
+				for _, c := range Calls(fn) {
+					k := CalleeKey(c.Common())
+					if !strings.HasPrefix(k, "query.") || !strings.Contains(k, "aginate") {
+						continue
+					}
+					fk := FuncKey(fn)
+					if k == "query.Paginate" {
+						r.OK(fk, "pagination", "query.Paginate: every record under the prefix store is returned and counted", r.P(c))
+						continue
+					}
+					// filtered variants: the callback must report a hit on every non-error path
+					var cb *ssa.Function
+					for _, a := range c.Common().Args {
+						if mc, ok := a.(*ssa.MakeClosure); ok {
+							cb, _ = mc.Fn.(*ssa.Function)
+						}
+					}
+					if cb == nil {
+						r.Undecided(fk, "pagination", "cannot find the callback of "+k, r.P(c))
+						continue
+					}
+					cfa := e.FA(cb)
+					ok := true
+					for _, ret := range cfa.SuccessExits() {
+						if len(ret.Results) < 1 {
+							continue
+						}
+						if t := cfa.Term(ret.Results[0]); !(t.Op == "const" && t.Name == "true") {
+							ok = false
+						}
+					}
+					r.Check(ok, fk, "pagination", k+" whose callback reports a hit for every record", "the query uses "+k+" and its callback can report `no hit` for a record under the scan prefix: such records are neither returned nor counted, so pages, next_key and total no longer enumerate every matching record exactly once (the scan prefix already encodes the whole filter)", r.P(c))
+				}
+			}
+		}})
+}
+
 func typeKeyOfResp(fnKey string) string {
 	if strings.HasSuffix(fnKey, "GetAlliance") {
 		return "bindtypes.AllianceResponse"
